@@ -1,9 +1,10 @@
 #!/bin/bash
-# tools/seeded_parallel.sh [streams]: re-runs every stored seeded change against the CURRENT /repo tree (demo without / with the
-# change, then the property's quick check; the repository's suite is not repeated: see confirm*.log) in N parallel streams.
+# tools/seeded_parallel.sh [streams] [tag] [property-regex]: re-runs every stored seeded change (of the properties matching the
+# regex; default all) against the CURRENT /repo tree (demo without / with the change, then the property's quick check; the
+# repository's suite is not repeated: see confirm*.log) in N parallel streams; summary in seeded/final-summary[-tag].txt
 cd "$(dirname "$0")/.."
-N=${1:-4}
-names=($(ls seeded | grep -E '^C[0-9]+-'))
+N=${1:-4}; TAG=${2:-}; RE=${3:-C[0-9]+}
+names=($(ls seeded | grep -E "^(${RE})-"))
 for k in $(seq 0 $((N-1))); do
   (
     for i in "${!names[@]}"; do
@@ -14,8 +15,8 @@ for k in $(seq 0 $((N-1))); do
         python3 tools/seeded.py $n $p seeded/$n --skip-suite $extra 2>&1 | grep -v "WARNING conda" | cut -c1-300
       fi
     done
-  ) > seeded/final-$k.log 2>&1 &
+  ) > seeded/final${TAG:+-$TAG}-$k.log 2>&1 &
 done
 wait
-grep -h "^=== \|caught=" seeded/final-*.log | paste - - | awk '{print $2, $NF}' | sort > seeded/final-summary.txt
-grep -c "caught=True" seeded/final-summary.txt; grep -v "caught=True" seeded/final-summary.txt
+grep -h "^=== \|caught=" seeded/final${TAG:+-$TAG}-*.log | paste - - | awk '{print $2, $NF}' | sort > seeded/final-summary${TAG:+-$TAG}.txt
+grep -c "caught=True" seeded/final-summary${TAG:+-$TAG}.txt; grep -v "caught=True" seeded/final-summary${TAG:+-$TAG}.txt
